@@ -29,7 +29,13 @@ pub fn boundary_values(ctx: &mut Ctx) -> Vec<i64> {
 
 /// one digit proof assembled by an attacker: claims digit value `d` (any scalar) using signature `sig`
 fn forged_digit(ctx: &mut Ctx, rpd: &RpD, d: &Scalar, sig: &(Scalar, Scalar), c: &Scalar) -> Option<SpD> {
-    let (bf, tbf, t, r) = (rand_scalar(&mut ctx.prng), rand_scalar(&mut ctx.prng), rand_scalar(&mut ctx.prng), nonzero(&mut ctx.prng));
+    forged_digit_with(ctx, rpd, d, sig, c, None)
+}
+
+/// … optionally with a prescribed re-randomiser and blinding factor (to make two digit proofs share them)
+fn forged_digit_with(ctx: &mut Ctx, rpd: &RpD, d: &Scalar, sig: &(Scalar, Scalar), c: &Scalar, shared: Option<(Scalar, Scalar)>) -> Option<SpD> {
+    let (mut bf, tbf, t, mut r) = (rand_scalar(&mut ctx.prng), rand_scalar(&mut ctx.prng), rand_scalar(&mut ctx.prng), nonzero(&mut ctx.prng));
+    if let Some((r0, bf0)) = shared { r = r0; bf = bf0; }
     let op = format!("sp-prove {} {} {} {} {} {} {} {} {}", pk_args(&rpd.pk), hex_s(d), hex_s(&sig.0), hex_s(&sig.1), hex_s(&bf), hex_s(&tbf), hex_s(&t), hex_s(&r), hex_s(c));
     let toks = ctx.ask(&op);
     let s = |i: usize| if let Some(Tok::S(a)) = toks.get(i) { Some(*a) } else { None };
@@ -193,6 +199,49 @@ pub fn run(ctx: &mut Ctx) {
     for k in 0..n {
         idx += 1;
         forged_case(ctx, idx, &rp, &rpd, k);
+    }
+    // C': two digit proofs defective in a way that cancels in any unweighted aggregate of the nine pairing / Schnorr
+    // equations (same-role elements moved by +D and -D), on otherwise honest constraints; every role, every pair of positions
+    idx += 1;
+    if ctx.begin_case(idx, "range-compensating-pairs") {
+        if let Some(run) = range_honest(ctx, &rp, &rpd, 0x0123_4567_89ab_cdefu64 as i64 & i64::MAX, None) {
+            let expected = run.c * Scalar::from((0x0123_4567_89ab_cdefu64 as i64 & i64::MAX) as u64) + run.commitment_scalar;
+            let mut p = 0usize;
+            for role in 0..4 {
+                for j in 0..9 {
+                    for k in j + 1..9 {
+                        p += 1;
+                        if !ctx.thorough() && p % 3 != (ctx.seed as usize) % 3 { continue; }
+                        let d = nonzero(&mut ctx.prng);
+                        let mut ps = run.proofs.clone();
+                        match role {
+                            0 => { ps[j].s1 += d; ps[k].s1 -= d; if ps[j].s1 == Scalar::zero() || ps[k].s1 == Scalar::zero() { continue; } }
+                            1 => { ps[j].s2 += d; ps[k].s2 -= d; }
+                            2 => { ps[j].cp.c += d; ps[k].cp.c -= d; }
+                            _ => { ps[j].cp.t += d; ps[k].cp.t -= d; }
+                        }
+                        let _ = range_verify_check(ctx, &rp, &rpd, &ps, &run.c, &expected, Some(false), &format!("compensating-pair-{}", ["sigma1", "sigma2", "commitment", "scalar-commitment"][role]));
+                    }
+                }
+            }
+            // two positions presenting the SAME published signature under the SAME re-randomiser, claiming d+e and d-e
+            for t in 0..(if ctx.thorough() { 20 } else { 4 }) {
+                let (j, k) = { let j = ctx.prng.gen_range(0..9); let mut k = ctx.prng.gen_range(0..9); if k == j { k = (j + 1) % 9; } (j, k) };
+                let dg = [0u64, 1, 64, 127][t % 4];
+                let e = Scalar::from(1 + ctx.prng.gen_range(0..50u64));
+                let (r, bf) = (nonzero(&mut ctx.prng), rand_scalar(&mut ctx.prng));
+                let c = run.c;
+                let mut ps = run.proofs.clone();
+                let mut okk = true;
+                for (pos, m) in [(j, Scalar::from(dg) + e), (k, Scalar::from(dg) - e)] {
+                    match forged_digit_with(ctx, &rpd, &m, &rpd.sigs[dg as usize], &c, Some((r, bf))) { Some(pf) => ps[pos] = pf, None => { okk = false; } }
+                }
+                if !okk { break; }
+                let zs: Vec<Scalar> = ps.iter().map(|p| p.cp.zs[0]).collect();
+                let exp2 = weighted(&zs);
+                let _ = range_verify_check(ctx, &rp, &rpd, &ps, &c, &exp2, Some(false), "two-digits-same-signature-offsetting-messages");
+            }
+        }
     }
     // D: parameter validation
     idx += 1;
